@@ -119,6 +119,7 @@ func qcol(n string) string { return `"` + n + `"` }
 func GenTable(t *rapid.T, name string, o Opts) Table {
 	tb := Table{Name: name}
 	tb.Strict = !o.NoStrict && rapid.IntRange(0, 7).Draw(t, "strict") == 0
+	tb.Remark = rapid.IntRange(0, 5).Draw(t, "remark") == 0
 	used := map[string]bool{}
 	if o.KeyColumn {
 		tb.Cols = append(tb.Cols, Column{Name: "k", Type: "integer", NotNull: true})
